@@ -65,3 +65,21 @@ def fmt(stage_dir):
         ok = len(sites) == n_all and all(len(m.group(2)) > 2 and m.group(2)[1] != "%" for m in sites)
         out.append(("formats-" + f, ok and n_all > 0, "%d error call sites in %s, all with a literal format starting with text" % (n_all, f)))
     return out
+
+
+def codes256(stage_dir):
+    """S.codes256 (C11): the bounded set D.codes runs the tail of set_sgrammar with `code` = 256; this fact ties that value to the real
+    function: the variable is initialised to 256 at its declaration and nothing assigns it before the region."""
+    text = open(os.path.join(stage_dir, "plain", "sgramm.y")).read()
+    sh = st._shadow(text)
+    b0, b1 = st.find_function(text, sh, "set_sgrammar")
+    body = text[b0:b1 + 1]
+    decl = re.search(r"\bint code = (\d+)", body)
+    m0 = re.search(r"/\* sort array of syntax terminals by names\. \*/", body)
+    out = [("declared-256", bool(decl) and decl.group(1) == "256", "`code' is declared with initialiser 256")]
+    if decl and m0:
+        between = st._shadow(body[decl.end():m0.start()])
+        out.append(("not-assigned-before-region", re.search(r"[^_a-zA-Z]code\s*(=[^=]|\+\+|--)", between) is None, "no assignment to `code' between its declaration and the code-assignment region"))
+    else:
+        out.append(("anchors", False, "declaration or region anchor not found"))
+    return out
